@@ -23,7 +23,7 @@ Add(vs, line, what) ==
          [n |-> viol.n + 1,
           list |-> IF Len(viol.list) >= MaxList THEN viol.list
                    ELSE Append(viol.list, [line |-> line, run |-> g.hdr.run, call |-> what, v |-> vs,
-                                           extra |-> [f \in (DOMAIN g.hdr \cap {"n", "pa", "pg", "maxtx", "fanout", "notifydown", "pol"}) |-> g.hdr[f]]])]
+                                           extra |-> [f \in (DOMAIN g.hdr \cap {"n", "pa", "pg", "maxtx", "fanout", "notifydown", "pol", "piggy"}) |-> g.hdr[f]]])]
 
 \* violations of the selected monitors, as a function property-id -> set of clauses
 Sel(c02, c03, c04, c05, c18) ==
